@@ -160,6 +160,8 @@ def counting(step, data, shape, tensor):
     count[0] += 1
     if count[0] == kill_at:
         os.kill(os.getpid(), signal.SIGKILL)
+    if count[0] == -kill_at:
+        raise RuntimeError("writer fails here (uncaught)")
     return r
 ptm._set_data_and_shape = counting
 pt = c17.build_simple_pt(case)
@@ -189,7 +191,11 @@ def real_kill_cases(src, verif, ncases=2):
             ref = c17.snapshot(c17.build_simple_pt(case))
             nsets = 1 + case["n"] + case["n"] + 1   # initial + mpos + caps
             outcomes = {}
-            for k in list(range(1, nsets + 1)) + [0]:
+            # k > 0: SIGKILL after the k-th tensor; k < 0: the writer ends by
+            # an uncaught exception there (orderly interpreter shutdown);
+            # k = 0: normal completion
+            soft = [-2, -(nsets - 1)] if nsets > 3 else [-1]
+            for k in list(range(1, nsets + 1)) + soft + [0]:
                 path = os.path.join(tmp, "c%d-k%d.hdf5" % (ci, k))
                 code = _KILL_SNIPPET % {"src": src, "verif": verif,
                                         "case": case, "kill_at": k,
@@ -214,22 +220,29 @@ def real_kill_cases(src, verif, ncases=2):
                             "complete" if not diffs else "silent-incomplete")
                     except Exception as e:  # noqa: BLE001
                         res = "fails:" + type(e).__name__
-                outcomes["kill@%d" % k if k else "clean"] = res
+                label = "clean" if k == 0 else (
+                    "kill@%d" % k if k > 0 else "exception@%d" % -k)
+                outcomes[label] = res
                 if res == "silent-incomplete":
                     violations.append({
-                        "class": "silent_incomplete_after_crash",
-                        "signature": "real-kill/export",
-                        "detail": "a real writer SIGKILLed after its %d-th "
+                        "class": "silent_incomplete_after_crash" if k > 0
+                        else "silent_incomplete_after_writer_exit",
+                        "signature": "real-%s/export" % (
+                            "kill" if k > 0 else "exception"),
+                        "detail": "a real writer %s after its %d-th "
                                   "tensor left a file that opens without "
-                                  "warning but %s differ" % (k, diffs[:5])})
+                                  "warning but %s differ" % (
+                                      "SIGKILLed" if k > 0 else
+                                      "ended by an uncaught exception",
+                                      abs(k), diffs[:5])})
                 if k == 0 and res != "complete":
                     violations.append({
                         "class": "closed_file_incomplete",
                         "signature": "real-kill/export",
                         "detail": "a real, normally closed file reads back "
                                   "as: " + res})
-                if k and not killed:
-                    outcomes["kill@%d" % k] += " (writer was not killed)"
+                if k > 0 and not killed:
+                    outcomes[label] += " (writer was not killed)"
                 try:
                     os.remove(path)
                 except OSError:
